@@ -31,6 +31,9 @@ pub struct WorldOpts {
     /// genesis compact target (DIFF_TWO in the flat world; larger where difficulty must be able
     /// to halve and double without hitting 1)
     pub genesis_compact_target: u32,
+    /// genesis also holds script/testdata/exec_caller_from_witness as a code cell and one cell
+    /// locked by it (a lock whose verdict depends on the witness): see `witness_lock_cells`
+    pub witness_lock: bool,
 }
 
 impl Default for WorldOpts {
@@ -44,6 +47,7 @@ impl Default for WorldOpts {
             max_block_proposals_limit: None,
             permanent_difficulty: true,
             genesis_compact_target: DIFF_TWO,
+            witness_lock: false,
         }
     }
 }
@@ -74,6 +78,24 @@ pub fn genesis_block() -> BlockView {
 }
 
 pub fn genesis_block_with_target(compact_target: u32) -> BlockView {
+    genesis_block_ext(compact_target, false)
+}
+
+/// the lock script whose code is script/testdata/exec_caller_from_witness (exec's witness 0)
+pub fn witness_lock_script() -> packed::Script {
+    let code = std::fs::read("/repo/script/testdata/exec_caller_from_witness").expect("testdata/exec_caller_from_witness");
+    packed::Script::new_builder().code_hash(CellOutput::calc_data_hash(&code)).hash_type(ckb_types::core::ScriptHashType::Data1).build()
+}
+
+/// (code cell, cell locked by the witness lock) of a `witness_lock` genesis
+pub fn witness_lock_cells(consensus: &Consensus) -> ((OutPoint, u64), (OutPoint, u64)) {
+    let txs = consensus.genesis_block().transactions();
+    let n = txs.len();
+    let cap = |tx: &TransactionView| -> u64 { tx.outputs().get(0).unwrap().capacity().unpack() };
+    ((OutPoint::new(txs[n - 2].hash(), 0), cap(&txs[n - 2])), (OutPoint::new(txs[n - 1].hash(), 0), cap(&txs[n - 1])))
+}
+
+pub fn genesis_block_ext(compact_target: u32, witness_lock: bool) -> BlockView {
     let tx0 = create_always_success_tx();
     let lock = always_success_lock();
     let mut txs: Vec<TransactionView> = vec![tx0];
@@ -92,6 +114,23 @@ pub fn genesis_block_with_target(compact_target: u32) -> BlockView {
                 .build(),
         );
     }
+    if witness_lock {
+        let code = Bytes::from(std::fs::read("/repo/script/testdata/exec_caller_from_witness").expect("testdata/exec_caller_from_witness"));
+        txs.push(
+            TransactionBuilder::default()
+                .input(CellInput::new(OutPoint::null(), 0))
+                .output(CellOutput::new_builder().capacity(capacity_bytes!(5_000)).lock(lock.clone()).build())
+                .output_data(code)
+                .build(),
+        );
+        txs.push(
+            TransactionBuilder::default()
+                .input(CellInput::new(OutPoint::null(), 0))
+                .output(CellOutput::new_builder().capacity(capacity_bytes!(50_000)).lock(witness_lock_script()).build())
+                .output_data(Bytes::from(vec![0xEEu8]))
+                .build(),
+        );
+    }
     let dao = genesis_dao_data(txs.iter().collect()).unwrap();
     BlockBuilder::default()
         .timestamp(BASE_TIME)
@@ -102,7 +141,7 @@ pub fn genesis_block_with_target(compact_target: u32) -> BlockView {
 }
 
 pub fn consensus(opts: &WorldOpts) -> Consensus {
-    let genesis = genesis_block_with_target(opts.genesis_compact_target);
+    let genesis = genesis_block_ext(opts.genesis_compact_target, opts.witness_lock);
     let epoch_ext = build_genesis_epoch_ext(
         Capacity::shannons(EPOCH_REWARD),
         opts.genesis_compact_target,
